@@ -120,7 +120,9 @@ def main(a):
         skipped = 0
         try:
             tasks = []
-            for prop in ("C09", "C16", "C01", "C20"):
+            # workloads whose answers do not depend on the (real, uncontrolled) directory order:
+            # unique unit names, no cyclic programs
+            for prop in ("C16", "C02", "C03", "C17"):
                 for i in range(n):
                     tasks.append((prop, i))
 
